@@ -126,8 +126,21 @@ uint8_t get_reg(struct instr *instrc, struct operand *m, int r) {
       m->reg = NO_BASE;
       instrc->no_base = true;
     }
-    if (m->reg == NO_BASE)
+    if (m->reg == NO_BASE) {
+      // disp32 follows: undo the disp8 truncation of a small negative
+      // displacement
+      if (instrc->mod_disp == MOD8 && (instrc->mem_offset & NEG8BIT_CHECK))
+        instrc->mem_offset |= ~(uint32_t)MAX_UNSIGNED_8BIT;
       instrc->mod_disp = 0;
+    } else {
+      // the index became the base: it has the special cases of a written base
+      if ((m->reg & VALUE_MASK) == spl && m->index == reg_none)
+        instrc->is_sib_const = true;
+      if ((m->reg & VALUE_MASK) == bpl && !instrc->mem_offset) {
+        instrc->mod_disp = MOD8;
+        instrc->zero_byte = true;
+      }
+    }
   }
   // check for index register
   if (m->index == reg_none) {
